@@ -8,7 +8,7 @@ FOOTER = '\n} // verus!\nfn main() {}\n'
 
 
 def build(repo, findings):
-    u = Unit('U5b', 'variable dereference in arithmetic: one level deeper per indirection, never past the limit', repo, ['C01'], safety_props=['C01'])
+    u = Unit('U5b', 'variable dereference in arithmetic: one level deeper per indirection, never past the limit', repo, ['C01', 'C07'], safety_props=['C01'])
     ar = u.source('brush-core/src/arithmetic.rs')
     ast = u.source('brush-parser/src/ast.rs')
     ar.require_text(r'impl Evaluatable for ast::ArithmeticExpr \{\s*fn eval\(&self, shell: &mut Shell<impl extensions::ShellExtensions>\) -> Result<i64, EvalError> \{\s*eval_expr_impl\(self, shell, 0\)\s*\}', 'Evaluatable::eval starts the evaluator at depth 0 (stubbed as such)')
@@ -26,15 +26,24 @@ def build(repo, findings):
             'env_get_at(shell, name, index_str.as_str())?', 'R14', 'environment lookup chain (closures, Option/Result adapters) -> env_get_at stub with the same error path', flags=16)
     f.resub(r'brush_parser::arithmetic::parse\(value_str\.as_ref\(\)\)\s*\.map_err\(\|_err\| EvalError::ParseError\(value_str\.to_string\(\)\)\)\?',
             'parse_arith(&value_str)?', 'R14', 'arithmetic parser call + error mapping -> parse_arith stub with the same error path', flags=16)
+    f.resub(r'(\w+)\.trim\(\)\.parse::<i64>\(\)', r'vx_parse_i64(\1.as_str().trim())', 'R14', 'str::parse::<i64> -> stub with an arbitrary result', count=None)
     f.sig(fn, ret='res', requires=[C('aux depth-within-limit', 'depth <= MAX_VARIABLE_DEREF_DEPTH')], ensures=[
         C('aux log-extends', 'old(shell).evals().is_prefix_of(final(shell).evals())'),
         C('C01 nested-evaluation-one-level-deeper-and-bounded',
           'forall|k: int| old(shell).evals().len() <= k < final(shell).evals().len() ==> deref_call_ok(#[trigger] final(shell).evals()[k], *lvalue, depth)'),
+        C('C07 the-value-of-a-variable-is-its-text-evaluated-as-an-arithmetic-expression', '''(lvalue is Variable && res is Ok) ==> ({
+    let t = var_text(old(shell).vars(), lvalue->Variable_0@);
+    &&& t is Ok && parse_spec(t->Ok_0) is Ok
+    &&& final(shell).evals().len() == old(shell).evals().len() + 1
+    &&& final(shell).evals().last().expr == parse_spec(t->Ok_0)->Ok_0
+    &&& final(shell).evals().last().ret == res
+})'''),
     ])
     u.add(f)
     u.raw(FOOTER)
     u.assume('external_body', 'eval_expr_impl / ArithmeticExpr::eval are stubs that log (expression, depth); get_var_value, env_get_at, parse_arith are stubs with arbitrary results; Shell opaque')
-    u.assume('uninterp', 'Shell::evals (ghost log of evaluator entries)')
+    u.assume('uninterp', 'Shell::evals (ghost log of evaluator entries and their results), Shell::vars, var_text, parse_spec')
+    u.assume('assume_specification', 'str::trim (no meaning attached)')
     u.assume('stub', 'assign() also evaluates a subscript (same depth) and is NOT verified; the composition of U5 (depth passed unchanged inside one expression) and U5b into a global termination measure is argued in DESIGN.md, not machine-checked')
     u.expected_min_fns = 1
     return u
